@@ -275,7 +275,7 @@ def gen_bracket(rng, idx):
 
 def generate(seed, tier):
     rng = random.Random(seed)
-    n = 12000 if tier == "thorough" else 1500
+    n = 30000 if tier == "thorough" else 4000
     cases = []
     for i in range(n):
         if i % 8 == 7:
